@@ -286,6 +286,8 @@ def make_pool(jobs=None):
 def record(ck, res, name, expect="confirmed", bound=None, notes=""):
     """fold a Result into a Check's accounting; returns the verdict string"""
     ck.states += res.paths
+    # every explored path executes the real implementation and is judged against the harness oracle
+    ck.traces += res.paths
     ck.add_queries("crosshair-z3", res.z3_checks, res.z3_s)
     v = res.verdict
     if expect == "refuted":  # reachability twin: must produce a counterexample
